@@ -16,7 +16,7 @@ func init() {
 	register(func() {
 		engine.Register(&engine.Check{
 			ID: "C14", Level: "model_checking", Risky: true,
-			Rule: "ALL pairs (well-formed event stream, target type) regardless of compatibility: every tree of <=N nodes over a leaf alphabet (int, string by reference, null, bool, float, uint64 max, ...) with keys by value/by reference x ~60 target types (every field type plain, one- and two-field structs with tag options, pointers, maps, slices, interfaces, compiled seeds incl. unsupported kinds); hostile announced lengths (true+1, 2^16, 2^24, 2^31, 2^62, 2^63-1) at every container; abandonment histories: the document is cut after event k for EVERY k, then Reset + SetTarget(fresh) + a follow-up document, explored as explicit-state search over <=2 abandoned documents with a reflective fingerprint of the unfolder's stacks; built with -gcflags=all=-d=checkptr; oracle: every event method returns nil or an error (no panic / fatal / step-budget overrun), canary bytes around the target are intact, allocation <= 1MiB + 1KiB x events received, unsupported types refused when the target is set, and after Reset+SetTarget the follow-up document yields exactly what a new unfolder yields with the same idle fingerprint; a case = (stream, target) or (abandonment history, follow-up); non-trivial = container stream",
+			Rule:        "ALL pairs (well-formed event stream, target type) regardless of compatibility: every tree of <=N nodes over a leaf alphabet (int, string by reference, null, bool, float, uint64 max, ...) with keys by value/by reference x ~60 target types (every field type plain, one- and two-field structs with tag options, pointers, maps, slices, interfaces, compiled seeds incl. unsupported kinds); hostile announced lengths (true+1, 2^16, 2^24, 2^31, 2^62, 2^63-1) at every container; abandonment histories: the document is cut after event k for EVERY k, then Reset + SetTarget(fresh) + a follow-up document, explored as explicit-state search over <=2 abandoned documents with a reflective fingerprint of the unfolder's stacks; built with -gcflags=all=-d=checkptr; oracle: every event method returns nil or an error (no panic / fatal / step-budget overrun), canary bytes around the target are intact, allocation <= 1MiB + 1KiB x events received, unsupported types refused when the target is set, and after Reset+SetTarget the follow-up document yields exactly what a new unfolder yields with the same idle fingerprint; a case = (stream, target) or (abandonment history, follow-up); non-trivial = container stream",
 			Assumptions: []string{"out-of-bounds writes are observed through canaries next to the target, checkptr, the final value comparison and GC crashes; a stray write that hits none of them is not seen", "allocation is measured with runtime/metrics on a single goroutine"},
 			Families:    c14Families,
 			Bounds: func(tier string) map[string]interface{} {
@@ -105,7 +105,9 @@ func c14Families(tier string) []engine.Family {
 	runPair := func(x *engine.Exec, tg c14Target, evs []model.Event, class string, fam string) {
 		desc := fmt.Sprintf("%s <- %s", tg.name, model.EventsString(evs))
 		x.Case(desc, len(evs) > 1)
-		x.Sample(func() interface{} { return map[string]interface{}{"target": tg.name, "events": model.EventsString(evs)} })
+		x.Sample(func() interface{} {
+			return map[string]interface{}{"target": tg.name, "events": model.EventsString(evs)}
+		})
 		ptr, canariesOK := guarded(tg.t)
 		usup, why := model.UnfoldSupported(tg.t)
 		stage := "SetTarget"
